@@ -1,8 +1,78 @@
 import DarkluaModel.Util.Sexp
-/-! Line-protocol handlers for property C19 (stub: nothing modelled yet). -/
+import DarkluaModel.C19.Model
+/-!
+Line-protocol handlers for property C19.
+
+JSON trees travel as S-expressions: `z` (null) `t` `f` `(n <int>)` `(r <hex token>)` `(s <hex>)`
+`(a v…)` `(o (<hex key> v)…)`.
+
+* `c19.cfg (req <json> (bg <hex>…) (br <hex>…))` — `bg`/`br`: the glob patterns / regular expressions
+  the real libraries reject. Answer: `err <class>` or
+  `ok <hex of serialised text> <same|differs|reject:<class>> <in|out> <wf|not-wf>`
+  (model round trip `deserializeConfig (serializeConfig c)` against `c`; membership in H₁₉ = `lossless`;
+  `configWF`, the other hypothesis of `roundtrip_partial`).
+* `c19.names` — rule names of the model's table, space separated.
+* `c19.schema` — `rule:key:kind` triples, space separated.
+-/
 namespace DarkluaModel.C19
 
-def handle (op : String) (_args : List String) : String :=
-  "unknown-op " ++ op
+open DarkluaModel
+
+private def hexStr? (s : String) : Option String := do
+  let bytes ← hexToBytes? s
+  String.fromUTF8? (ByteArray.mk bytes.toArray)
+
+partial def jsonOfSexp : Sexp → Option Json
+  | .atom "z" => some .null
+  | .atom "t" => some (.bool true)
+  | .atom "f" => some (.bool false)
+  | .list [.atom "n", .atom i] => i.toInt?.map .num
+  | .list [.atom "r", .atom h] => (hexStr? h).map .frac
+  | .list [.atom "s", .atom h] => (hexStr? h).map .str
+  | .list (.atom "a" :: xs) => (xs.mapM jsonOfSexp).map .arr
+  | .list (.atom "o" :: kvs) =>
+    (kvs.mapM fun (kv : Sexp) => match kv with
+      | Sexp.list [Sexp.atom k, v] => do pure (← hexStr? k, ← jsonOfSexp v)
+      | _ => none).map .obj
+  | _ => none
+
+private def hexList? (tag : String) : Sexp → Option (List String)
+  | .list (.atom t :: xs) => if t == tag then xs.mapM (fun x => x.atom?.bind hexStr?) else none
+  | _ => none
+
+def handleCfg (s : Sexp) : Option String :=
+  match s with
+  | .list [.atom "req", j, bg, br] => do
+    let json ← jsonOfSexp j
+    let badGlobs ← hexList? "bg" bg
+    let badRegex ← hexList? "br" br
+    let ext : Ext := { globOk := fun p => !badGlobs.contains p, regexOk := fun r => !badRegex.contains r }
+    match deserializeConfig ext json with
+    | .error e => pure ("err " ++ e)
+    | .ok c =>
+      let out := serializeConfig c
+      let rt := match deserializeConfig ext out with
+        | .error e => "reject:" ++ e
+        | .ok c' => if c' = c then "same" else "differs"
+      pure ("ok " ++ bytesToHex (strToBytes (render out)) ++ " " ++ rt ++ " " ++ (if lossless c then "in" else "out")
+        ++ " " ++ (if configWF ext c then "wf" else "not-wf"))
+  | _ => none
+
+private def kindName : PKind → String
+  | .bool => "bool" | .string => "string" | .stringList => "string-list" | .regexList => "regex-list"
+  | .requireMode => "require-mode" | .any => "any" | .enumStr vals => "enum=" ++ ",".intercalate vals
+  | .identList => "ident-list"
+
+def handle (op : String) (args : List String) : String :=
+  match op with
+  | "cfg" =>
+    match (Sexp.parse (" ".intercalate args)).bind handleCfg with
+    | some r => r
+    | none => "bad-args"
+  | "names" => " ".intercalate (ruleTable.map (·.1))
+  | "schema" =>
+    " ".intercalate (ruleTable.flatMap fun (name, kind) =>
+      (schema kind).map fun (key, pk) => name ++ ":" ++ key ++ ":" ++ kindName pk)
+  | _ => "unknown-op " ++ op
 
 end DarkluaModel.C19
